@@ -255,6 +255,71 @@ def _atom_kind(d):
     return ("other", x)
 
 
+def unexpired_lapses(chk, w):
+    """UNEXP: an unmined transaction stops counting once it can no longer be mined - that is what makes the
+    balance a ledger of notes not spent "by a mined or still-unexpired transaction". tx_unexpired_condition is
+    a disjunction; each disjunct must be either permanent for a good reason (the transaction is mined; it
+    declares no expiry, expiry_height = 0) or LAPSE as the target height grows (contain a comparison with
+    :target_height). A disjunct such as `expiry_height IS NULL` on its own keeps an orphaned transaction's
+    outputs counting and its inputs spent forever."""
+    tu = [f for f in w.fns.values() if f.p == "zcash_client_sqlite::wallet::common::tx_unexpired_condition"]
+    if len(tu) != 1:
+        chk.fail("UNEXP", "missing", "tx_unexpired_condition not found")
+        return
+    lits = [l for l in sqlfx.string_literals(zf.fn_source(extract.REPO, tu[0])) if "mined_height" in l]
+    if len(lits) != 1:
+        chk.fail("UNEXP", "literal", "expected one SQL literal in tx_unexpired_condition, found %d" % len(lits), tu[0].span.loc())
+        return
+    n = 0
+    for d in _disjuncts(lits[0]):
+        k = _atom_kind(d)
+        n += 1
+        if k[0] in ("mined", "noexpiry"):
+            chk.ok("UNEXP", "disjunct `%s`: permanent (%s)" % (re.sub(r"\s+", " ", d)[:60], k[0]))
+        elif k[0] == "height-dependent":
+            chk.ok("UNEXP", "disjunct `%s`: lapses as the target height grows" % re.sub(r"\s+", " ", d)[:80], sample=(n == 3))
+        else:
+            chk.fail("UNEXP", "disjunct/%s" % re.sub(r"[^a-z_]+", "_", k[1].lower())[:40], "the disjunct `%s` of tx_unexpired_condition "
+                     "neither says the transaction is mined / has no expiry nor depends on the target height: an unmined "
+                     "transaction satisfying it counts as unexpired forever" % k[1][:80], tu[0].span.loc())
+    if n < 3:
+        chk.fail("UNEXP", "disjuncts", "expected at least the mined / no-expiry / unexpired disjuncts, found %d" % n, tu[0].span.loc())
+
+
+def spend_row_created(chk, w, fx):
+    """NFTX: when a note arrives whose nullifier is already in the nullifier map (its spend was scanned first), the
+    spending transaction is linked to the note - and that transaction may have no row yet (a spend with no output
+    the wallet can decrypt leaves none). query_nullifier_map therefore FINDS OR CREATES the row: what it returns
+    for a map hit comes from put_tx_meta (the upsert) or from an INSERT into transactions, never from a plain
+    look-up that can answer "no such row" and drop the spend."""
+    fs = [f for f in w.fns.values() if f.p == "zcash_client_sqlite::wallet::query_nullifier_map"]
+    if len(fs) != 1:
+        chk.fail("NFTX", "missing", "query_nullifier_map not found")
+        return
+    f = fs[0]
+    du = defuse.DefUse(f.body)
+    rets = []
+    for kind, _bi, x in du.defs.get(0, []):
+        if kind == "call":
+            nm = x.callee.target_p() if x.callee.indirect is None else "?"
+            rets.append(defuse.show(("call", nm, [du.origin(a) for a in x.args])))
+        elif kind == "stmt" and x.rv.kind == "use":
+            rets.append(defuse.show(du.origin(x.rv.ops[0])))
+        elif kind == "stmt" and x.rv.kind == "agg":
+            rets.append("%s{%s}" % (x.rv.agg[2], ", ".join(defuse.show(du.origin(o)) for o in x.rv.ops)))
+    # the result for a map hit: the definition that is not the early `Ok(None)`
+    hit = [r for r in rets if not re.match(r"^Ok\{core::option::Option::None\{\}\}$|^Ok\{None", r) and "from_residual" not in r]
+    ret = " | ".join(hit) or "nothing"
+    texts = " ".join(x[3] for x in fx.sites.get(f.id, []))
+    creates = "put_tx_meta(" in ret or re.search(r"INSERT\s+(OR\s+\w+\s+)?INTO\s+transactions", texts, re.I)
+    if creates and "optional(" not in ret.split("put_tx_meta(")[0][-40:]:
+        chk.ok("NFTX", "query_nullifier_map returns the row put_tx_meta finds or creates for the spending transaction", sample=True)
+    else:
+        chk.fail("NFTX", "query_nullifier_map", "for a nullifier-map hit query_nullifier_map returns `%s`: it no longer creates the "
+                 "spending transaction's row when there is none, so an out-of-order spend without a wallet-visible output is "
+                 "lost" % ret[:100], f.span.loc())
+
+
 def definitely_spent(chk, w, fx):
     """The scanner stops watching for a note's nullifier only when the note's spend is PERMANENT. The
     wallet's own notion of an effective spend is tx_unexpired_condition, some of whose disjuncts
@@ -324,6 +389,8 @@ def main(tier):
     chk.rule("RECV", "received notes are stored with the spent-before-received lookup", floor=2)
     chk.rule("UPSIB", "the pools' received-note upserts resolve conflicts alike", floor=6)
     chk.rule("DEFSPENT", "nullifier tracking ends only for permanent spends", floor=1)
+    chk.rule("NFTX", "a nullifier-map hit finds or creates the spending transaction's row", floor=1)
+    chk.rule("UNEXP", "every way a transaction counts as unexpired is permanent for a stated reason or lapses with the target height", floor=4)
     chk.rule("control", "positive controls", floor=2)
 
     ps_rules.ps1(chk, FILES)
@@ -423,6 +490,8 @@ def main(tier):
     recv_spent(chk, w)
     upsert_siblings(chk, w, fx)
     definitely_spent(chk, w, fx)
+    unexpired_lapses(chk, w)
+    spend_row_created(chk, w, fx)
 
     # ------------------------------------------------------------------ SPLICE
     need = {
@@ -500,6 +569,18 @@ def boundary(chk, w, fx, f):
             if not m0:
                 continue
             tbl = (re.search(r"(?:UPDATE|DELETE\s+FROM)\s+([A-Za-z_]+)", stmt) or [None, "?"])[1]
+            # the statement that un-mines transactions selects them by the column that says they are mined: a
+            # transaction whose mined height was learned without scanning its block (set_transaction_status,
+            # store_decrypted_tx) has `block` NULL, so selecting on another column leaves it mined after the rewind
+            ms = re.search(r"\bSET\b(.*?)\bWHERE\b(.*)$", stmt, re.S)
+            if m0.group(1) == "UPDATE" and ms and re.search(r"\bmined_height\s*=\s*NULL\b", ms.group(1)):
+                n += 1
+                if re.search(r"\bmined_height\s*(>|<=)\s*(:\w+|\?\d*)", ms.group(2)):
+                    chk.ok("BOUNDARY", "UPDATE %s: transactions are un-mined by their own mined_height" % tbl)
+                else:
+                    chk.fail("BOUNDARY", "%s/unmine-selector" % tbl, "the rewind un-mines rows of %s selected by `%s`, not by "
+                             "mined_height: a transaction known to be mined above the rewind height whose block was never "
+                             "scanned stays mined" % (tbl, re.sub(r"\s+", " ", ms.group(2)).strip()[:80]), t.span.loc())
             for m in HEIGHT_CMP.finditer(stmt):
                 n += 1
                 k0 = "%s/%s" % (tbl, m.group(1))
